@@ -68,7 +68,7 @@ def ksets(tier, checks=(1, 2, 3, 4, 5)):
     ks = []
     def add(c, dims, na, nb, maxv, mem=6, slots=2):
         ks.append(kengine.KConfig('K-sets-check%d-d%d-a%db%d-v%d' % (c, dims, na, nb, maxv), 'K_sets', '-DCHECK=%d -DDIMS=%d -DNA=%d -DNB=%d -DMAXV=%d' % (c, dims, na, nb, maxv),
-                                  unwind=max(na + nb, dims, 2) + 1, modv=maxv + 2, timeout=1500, mem_gb=mem, slots=slots))
+                                  unwind=max(na + nb, dims, 2) + 1, modv=maxv + 2, timeout=1500, mem_gb=mem, slots=slots, order='loop', backends=('minisat', 'kissat')))
     if tier == 'quick':
         add(1, 2, 2, 2, 2); add(2, 2, 2, 1, 2, mem=12, slots=3); add(3, 2, 3, 1, 2); add(4, 2, 2, 2, 2); add(5, 2, 3, 1, 2)
     else:
